@@ -16,6 +16,9 @@
               cfix = true : generateMappingID first creates the counter key without a deadline (SetNX, ttl 0), then Incr
                             (fixes/C19-id-counter-never-expires.diff); cfix = false: Incr alone — the counter store gives a
                             counter it creates the 24 h default data TTL, after which ids restart at 1.
+              ifirst = true: removeMappingKeys deletes the index entry first and the record last (the code's order: a failure in
+                             between leaves the record, so a retry finds it and finishes); ifirst = false: record first —
+                             a failure in between leaves an index entry nobody can ever remove.
    `own` and `log` are ghost fields (never read by the step function's decisions).
    Definitions only. *)
 From TX Require Export Base.Threads.
@@ -232,6 +235,7 @@ Section D.
   Variable dfix : bool.                         (* repaired removal path *)
   Variable atomic_incr : bool.
   Variable cfix : bool.                         (* the counter key is created without a deadline before Incr *)
+  Variable ifirst : bool.                       (* removeMappingKeys deletes the index entry BEFORE the record (the code's order) *)
   Variables reg cloud : name -> option pmap.    (* DomainRegistry / CloudControl contents (static environment) *)
 
   (* status checks shared by stages 2 and 3 of lookupMapping *)
@@ -355,20 +359,20 @@ Section D.
     | PCRm k who i n RmGuard _ =>
         if f then (rm_end t fs k who i (Some EStorage), ANone)
         else if rguard s i then (rm_end t fs k who i (Some EConflict), ANone)
-        else (goto t fs (PCRm k who i n RmGetIdx None), ATake i)
+        else (goto t fs (PCRm k who i n (if ifirst then RmGetIdx else RmDelRec) None), ATake i)
     | PCRm k who i n RmGetIdx _ =>
         if f then (goto t fs (PCRm k who i n RmRelease (Some EStorage)), ANone)
         else match idx s n with
              | Some j => if N.eqb j i then (goto t fs (PCRm k who i n RmDelIdx None), ANone)
-                         else (goto t fs (PCRm k who i n RmDelRec None), ANone)
-             | None => (goto t fs (PCRm k who i n RmDelRec None), ANone)
+                         else (goto t fs (PCRm k who i n (if ifirst then RmDelRec else RmRelease) None), ANone)
+             | None => (goto t fs (PCRm k who i n (if ifirst then RmDelRec else RmRelease) None), ANone)
              end
     | PCRm k who i n RmDelIdx _ =>
         if f then (goto t fs (PCRm k who i n RmRelease (Some EStorage)), ANone)
-        else (goto t fs (PCRm k who i n RmDelRec None), AUnidx n i who)
+        else (goto t fs (PCRm k who i n (if ifirst then RmDelRec else RmRelease) None), AUnidx n i who)
     | PCRm k who i n RmDelRec _ =>
         if f then (goto t fs (PCRm k who i n RmRelease (Some EStorage)), ANone)
-        else (goto t fs (PCRm k who i n RmRelease None), ADelRec i)
+        else (goto t fs (PCRm k who i n (if ifirst then RmRelease else RmGetIdx) None), ADelRec i)
     | PCRm k who i n RmRelease err =>
         (* deferred Delete of the rguard; its error is ignored (the rguard then stays until its TTL) *)
         if f then (rm_end t fs k who i err, ANone)
